@@ -141,6 +141,9 @@ func (mr *msgReader) putFlateReader() {
 	if mr.flateReader != nil {
 		putFlateReader(mr.flateReader)
 		mr.flateReader = nil
+		// The flate reader now belongs to the pool and possibly to another
+		// connection: a further Read of this message must not go through it.
+		mr.limitReader.r = mr.readFunc
 	}
 }
 
